@@ -149,3 +149,18 @@ Theorem serve_v1_reads_only_visible : forall b st st' L q ecs max,
 Proof.
   intros b st st' L q ecs max Hb A. destruct b; [| |contradiction]; unfold serve; apply serve_with_ext; exact A.
 Qed.
+
+(* ---------------------------------------------------------------- from records to stores *)
+From DnsV Require Import Spec.Answer Spec.Rows Proofs.Answer Proofs.Compile.
+
+(* C04 for the v1 reader over compiled stores: an edit that keeps the view of location L
+   (adds / changes / deletes only records tagged with other locations) changes no outcome
+   for a client the server maps to L *)
+Theorem foreign_edit_invisible_v1 : forall b recs recs' L q ecs max,
+  b <> RDB2 -> wf_locs recs -> wf_locs recs' -> length L = 2%nat -> same_view L recs recs' ->
+  serve b (store_v1 recs) q (LocOk L) ecs max = serve b (store_v1 recs') q (LocOk L) ecs max.
+Proof.
+  intros b recs recs' L q ecs max Hb W W' HL SV.
+  apply serve_v1_reads_only_visible; [exact Hb|].
+  intros n. split; eapply same_view_agree; eauto.
+Qed.
